@@ -228,6 +228,43 @@ def run(seed=0, rounds=400):
             check('char-order-is-code-point-order', ('0' <= ch <= '9') == (48 <= ord(ch) <= 57) and ('a' <= ch <= 'z') == (97 <= ord(ch) <= 122), ch)
             if '0' <= ch <= '9':
                 check('int-of-ascii-digit', int(ch) == ord(ch) - 48, ch)
+        # ---- C07 shape calculus (contracts/c07shape.py, pyvc/pybuiltins.py)
+        z = x.copy()
+        cc = int(rng.randint(-3, 4))
+        z[x < 0] += cc
+        check('mask-iadd', all(z[i] == (x[i] + cc if x[i] < 0 else x[i]) for i in range(n)), x, cc)
+        lst = [int(t) for t in rng.randint(-3, 4, size=n)]
+        check('argsort-concrete-stable', numpy.argsort(lst, kind='stable').tolist() == sorted(range(n), key=lst.__getitem__), lst)
+        if len(set(lst)) == n:
+            check('argsort-concrete-distinct', numpy.argsort(lst).tolist() == sorted(range(n), key=lst.__getitem__), lst)
+        init = int(rng.choice([-1, 1]))
+        pr = init
+        for t in lst:
+            pr *= t
+        check('prod-initial', int(numpy.prod(lst, initial=init)) == pr, lst, init)
+        aa, bb = int(rng.randint(-20, 21)), int(rng.choice([-5, -3, -1, 1, 2, 4, 7]))
+        q, r = divmod(aa, bb)
+        uniq = [(q2, r2) for q2 in range(-25, 26) for r2 in (range(0, bb) if bb > 0 else range(bb + 1, 1)) if aa == bb * q2 + r2]
+        check('divmod-characteristic', aa == bb * q + r and (0 <= r < bb if bb > 0 else bb < r <= 0) and uniq == [(q, r)] and q == aa // bb and r == aa % bb, aa, bb)
+        st_ = set(lst)
+        check('set-cardinality', len(st_) == sum(1 for i in range(n) if lst[i] not in lst[:i]), lst)
+        if st_:
+            check('set-next-iter-is-member', next(iter(st_)) in lst and max(st_) == max(lst), lst)
+        d1 = set(lst)
+        d1.discard(1)
+        check('set-discard', d1 == set(t for t in lst if t != 1), lst)
+        if n:
+            key = [3, 1, 2, 0, 5, 4, 6][:7]
+            ks = [int(t) % 7 for t in lst]
+            want = None
+            for t in ks:
+                if want is None or key.index(t) > key.index(want):
+                    want = t
+            check('max-key-first-maximal', max(ks, key=key.index) == want, ks)
+    kinds = (bool, int, float, complex)
+    for a_ in kinds:
+        for b_ in kinds:
+            check('result-kind-is-join', numpy.result_type(a_, b_).kind == numpy.dtype(kinds[max(kinds.index(a_), kinds.index(b_))]).kind, a_.__name__, b_.__name__)
     print('AXIOMS ' + json.dumps(dict(rounds=rounds, failures=fails[:5])))
     ok_sets = run_sets(seed)
     ok_ev = evaluable_nodes(seed)
